@@ -11,7 +11,7 @@ TECH = {
  "C03": "constant tables, congruence+interval check of field helpers, group-law case split decided per case on operands of known shape (x1==x2 / y1==y2 valuation), abstract domain of point multiples; SEC1 encoder terms (shared with C14); operand-range discharge for the field helpers on curve points; hidden-state rule (no module-level writes / stale or aliasing memoisation / shared class-level mutable defaults on the anchored paths)",
  "C04": "abstract evaluation of the source on sized symbolic transactions: writer-then-reader round trips per length region (ids per mode, trailing bytes), field coverage, ownership rule (no content search), mine_block on scripted mempools of 0..3 transactions; hidden-state rule (no module-level writes / stale or aliasing memoisation / shared class-level mutable defaults on the anchored paths)",
  "C05": "guard-partition decision tables (CompactSize), reader-after-writer round trips on sized fields across every length-prefix boundary, crafted non-canonical payloads, witness framing; hidden-state rule (no module-level writes / stale or aliasing memoisation / shared class-level mutable defaults on the anchored paths)",
- "C06": "constant tables; decision tables over input cells (byte-class truth tables decide every path condition) for parse / validate / decode_segwit; bit-level normal form of the 5-to-8 regrouping per character count; polymod step per value of the top five bits; hazard discharge by dominating membership / for-all facts; hidden-state rule (no module-level writes / stale memoisation / shared class-level mutable defaults on the anchored paths)",
+ "C06": "constant tables; decision tables over input cells (byte-class truth tables decide every path condition) for parse / validate / decode_segwit; bit-level normal form of the 5-to-8 regrouping per character count; polymod step per value of the top five bits; hazard discharge by dominating membership / for-all facts; early-verdict rule (per valid length and per known prefix in either case an accepting path remains); hidden-state rule (no module-level writes / stale memoisation / shared class-level mutable defaults on the anchored paths)",
  "C07": "alphabet table + inverse, term equality of the radix-58 folds (loop / reduce / translate-table forms), constant evaluation on zero-valued inputs, checksum comparison dominating the payload return, handler bodies of the total predicates, hidden-state rule (no module-level writes / stale memoisation / shared class-level mutable defaults on the anchored paths)",
  "C08": "decision table of scriptpubkey with scripted classifiers/decoders and inlined builders, byte-for-byte against the standard templates (all 256 version bytes, witness versions x program lengths); version-byte table agreement encoder<->decoder; shared C06/C14 decoder tables; cells for checksum-valid strings that are not segwit addresses; classifier totality obligations of C06; hidden-state rule (no module-level writes / stale or aliasing memoisation / shared class-level mutable defaults on the anchored paths)",
  "C09": "term equality with BIP32 per index region, polynomial normal form mod n, exact interval sets of accepted indices/keys, 78-byte payload on typed arguments (16 modes), decoder decision table over payload classes, derivation on concrete paths modulo deserialize-after-serialize, get_xpub on scripted decoded fields; hidden-state rule (no module-level writes / stale or aliasing memoisation / shared class-level mutable defaults on the anchored paths)",
@@ -22,10 +22,10 @@ TECH = {
  "C14": "decision table (length x prefix byte) of the SEC1 decoder with dominating on-curve fact, WIF version-byte tables (24 pairs) encoder<->decoder, DER documents byte for byte with the ASN.1 encoder inlined on sized keys, decoder paths against the RFC trees; hidden-state rule (no module-level writes / stale or aliasing memoisation / shared class-level mutable defaults on the anchored paths)",
  "C15": "abstract evaluation of merkle_root per list length vs the specification tree, BIP34 height regions, subsidy schedule regions, header layout, block round trip, mine_block on scripted mempools (txid tree, witness tree, commitment condition); hidden-state rule (no module-level writes / stale or aliasing memoisation / shared class-level mutable defaults on the anchored paths)",
  "C16": "per-sender-kind summaries of send_tx (generator / consumer loop pairs fused): ring equality of value conservation, loop path counts (one input per selected output), def-use provenance of outpoints/sighash inputs, type rule on float->satoshi conversions, SEC1 encoder obligations of C14, hidden-state rule (memoised calls of the outside world); one- and two-key scenarios for script-hash / multisig senders (signing order, CHECKMULTISIG dummy)",
- "C17": "recv_msg evaluated against scripted peers (sized stream, fragmentation patterns, early close, corrupted magic/checksum, payload sizes just above the thresholds the receive path mentions; strict scenario outcomes; consumed-byte accounting); msg_ser per command; reader-after-writer round trips and crafted payloads for the payload codecs; hidden-state rule (no module-level writes / stale memoisation / shared class-level mutable defaults on the anchored paths)",
+ "C17": "recv_msg evaluated against scripted peers (sized stream, fragmentation patterns, early close, corrupted magic/checksum, payload sizes just above the thresholds the receive path mentions and at the size limit msg_ser accepts; strict scenario outcomes; consumed-byte accounting); msg_ser per command; reader-after-writer round trips and crafted payloads for the payload codecs; hidden-state rule (no module-level writes / stale memoisation / shared class-level mutable defaults on the anchored paths)",
  "C18": "thread-reachability over resolved callees, ownership/atomicity rules on shared Node state (incl. unbounded queue constructor), CFG path counting over the receive loop with generator / consumer pairs fused and helper methods counted interprocedurally (exactly one handle-or-enqueue per received message), canary fixture; recv_msg framing scenarios of C17 (the receive thread stands on them); hidden-state rule (no module-level writes / stale or aliasing memoisation / shared class-level mutable defaults on the anchored paths)",
  "C19": "ownership rule (append-only open modes, no seek/truncate/rename) over the call graph incl. functions handed over as values, with canary fixture; hidden-state rule (memoised record header reading a re-assigned global); write_blocks_to_disk evaluated against a scripted file system (3 listings x 10 size situations): event sequence of open/write/close equals the reference sequence",
- "C20": "structural model of the argparse declarations (every parser x Config key uses ExplicitOption), layering order in main(), load_config decision table over file presence, Config.update on scripted objects, per-length evaluation of the hex/bin conversions (writer on the bit-level normal form of digit strings); base-command branch evaluated as a function of (args, config); aliasing rule for vars(self); hidden-state rule (no module-level writes / stale or aliasing memoisation / shared class-level mutable defaults on the anchored paths)",
+ "C20": "structural model of the argparse declarations (every parser x Config key uses ExplicitOption), layering order in main(), explicit-option layer evaluated per Config key on scripted namespaces, load_config decision table over file presence, Config.update on scripted objects, per-length evaluation of the hex/bin conversions (writer on the bit-level normal form of digit strings); base-command branch evaluated as a function of (args, config); aliasing rule for vars(self); hidden-state rule (no module-level writes / stale or aliasing memoisation / shared class-level mutable defaults on the anchored paths)",
 }
 checks = []
 for p in props:
